@@ -5,7 +5,7 @@
 cd "$(dirname "$0")/.." || exit 2
 names=${*:-$(ls benign)}
 for n in $names; do
-  python3 tools/evalbenign.py benign/$n --keep $n --jobs ${JOBS:-3} > /tmp/benign_$n.json 2>&1
+  python3 tools/evalbenign.py "$PWD/benign/$n" --keep $n --jobs ${JOBS:-3} > /tmp/benign_$n.json 2>&1
   python3 - "$n" <<'PY'
 import json, sys
 n = sys.argv[1]
